@@ -94,6 +94,7 @@ func (w *World) verifyFunction(fn *ssa.Function, ct *Contract, props []string) (
 		c.assume(ex.evalBool(pre, d))
 		c.note("domain hypothesis of the property statement: %s", d.Text)
 	}
+	ex.proveLocalLemmas(pre)
 	cov := c.obligeNamed("cover.pre", "cover", w.Fset.Position(fn.Pos()), "preconditions are satisfiable", tTrue, tTrue)
 	cov.Cover = true
 	ex.run()
